@@ -265,6 +265,25 @@ func runC10(w *World) *Result {
 			}
 		}
 		if role == "bash" {
+			// user function names are emitted as the command word of "<name>() {": a name that is a
+			// reserved word of the shell cannot be defined (syntax error) – unless names are prefixed
+			userFuncVerbatim := false
+			for _, nm := range names {
+				if nm.user && nm.space == "func" && nm.pattern == "<id>" {
+					userFuncVerbatim = true
+				}
+			}
+			for _, word := range []string{"case", "coproc", "do", "done", "elif", "else", "esac", "fi", "for", "function", "if", "in", "select", "then", "until", "while", "time"} {
+				if !inU(word) {
+					continue // a keyword of the language itself or not an identifier
+				}
+				key := "name:bash:reserved:" + word
+				if userFuncVerbatim {
+					r.Bad("R-C10-names", key, "-", "a user function may be called "+word+", which the emitted \""+word+"() {\" cannot define: "+word+" is a reserved word of the shell (syntax error); renaming the function changes whether the program works")
+				} else {
+					r.Ok("R-C10-names", key, "-", "user function names are not emitted verbatim")
+				}
+			}
 			for _, env := range []string{"PATH", "IFS"} {
 				key := "name:bash:env:" + env
 				if disjointScheme {
